@@ -68,6 +68,10 @@ func init() {
 		NontrivialRuleText["C07"], 300, 12000,
 		[]string{"fault_process_crash_images", "fault_second_crash_images", "images_ok", "merges", "reopen_after_recovery"},
 		"process crash only (the property says 'the process dies')")
+	meta("C11", "exploration", "deterministic simulation (fault-free, one client): the exported datafile API is driven on the simulated disk through both I/O back-ends in lock-step; record start offsets and end distances are aimed using file sizes observed at the disk seam; round-trip, positions, sizes, logical==physical and byte-identity of the back-ends are checked",
+		NontrivialRuleText["C11"], 6000, 32768,
+		[]string{"df_records", "df_staged_flushes", "df_reopens", "df_end_within_8_of_boundary", "df_end_on_boundary", "df_multi_block_records", "df_start_offsets_hit", "df_identical_backend_files"},
+		"no schedule, clock or fault is involved: the simulator contributes the physical-size and written-bytes observation at the disk seam")
 	meta("C12", "fault_enumeration", "deterministic simulation with fault injection: a small database is built on the simulated disk and closed; stored bytes of its data and hint files are then altered on copies (all single-bit flips for small trees, seeded header-biased flips otherwise, overwrites, truncations, garbage blocks) and Open / Get / Fold / the sequential reader are judged",
 		NontrivialRuleText["C12"], 500, 20000,
 		[]string{"fault_damage_flip", "fault_damage_overwrite", "fault_damage_truncate", "fault_damage_garbage", "exhaustive_flip_runs", "damage_detected_at_open", "damage_harmless_or_detected", "damage_exposed_prefix_state"},
@@ -95,6 +99,10 @@ func init() {
 		NontrivialRuleText["C13"], 12000, 400000,
 		[]string{"always_checks", "threshold_checks", "sync_batch_checks", "all_synced_checks", "rotations_checked"},
 		"for mmap files 'flushed' means covered by an msync issued after the store; msync makes the whole mapping durable")
+	meta("C14", "exploration", seqTech+"differential: one generated program executed under 2..4 configurations on separate simulated disks with the same simulated clock; transcripts (and bytes when the layout is equal) must be identical",
+		NontrivialRuleText["C14"], 8000, 250000,
+		[]string{"configs_compared", "byte_identical_layouts", "restarts", "batches", "iter_sessions", "rotations"},
+		"Stat sizes, DataFileNum and Merge's return value are excluded from the transcript when DataFileSize differs (they are layout)")
 	meta("C15", "exploration", seqTech+"hostile caller: one reused key buffer and one reused value buffer, poisoned after each return, canaries, kept Get results",
 		NontrivialRuleText["C15"], 12000, 400000,
 		[]string{"puts", "batch_repeat_key", "gets", "dumps"},
@@ -105,6 +113,14 @@ func init() {
 	meta("C18", "exploration", seqTech+"hint entries decoded and compared with a scan of the merged files; hint-path Open vs scan-path Open",
 		NontrivialRuleText["C18"], 8000, 250000,
 		[]string{"hint_checks", "hint_multi_file_output", "hint_vs_scan_opens"})
+	meta("C16", "exploration", concTech+"parties are in-process opener tasks plus one real child process driven in lock-step over a pipe (the scheduler decides whose turn it is); Open/Close outcomes are checked with porcupine against a single-holder lock model; a janitor task damages and repairs an older data file so that Opens fail after taking the lock; rejected Opens must leave the journal / directory hash unchanged",
+		NontrivialRuleText["C16"], 4000, 150000,
+		[]string{"opens_ok", "opens_rejected", "opens_failed_other", "closes", "rejected_open_dir_unchanged", "rejected_open_dir_unchanged_peer", "holder_token_writes", "lock_history_checks", "final_opens", "fault_damage_older_file"},
+		"flock(2) between two open file descriptions behaves the same within and across processes (the child-process party checks the cross-process half directly)", "the garbage collector is off during a run so that a leaked lock is not released by a finalizer")
+	meta("C19", "exploration", seqTech+"the data-type layer is driven with the simulated clock (TTL boundaries hit at expiry-1ns / expiry / expiry+1ns) and restarts; normalised replies vs an abstract-type reference model",
+		NontrivialRuleText["C19"], 12000, 400000,
+		[]string{"dt_commands", "dt_wrongtype_replies", "restarts", "expired_reads", "dt_lpop", "dt_zadd", "dt_hdel", "dt_srem"},
+		"an emptied collection keeps its type (the statement does not say it vanishes)", "a non-string command on a string that expired but was not deleted may answer as on a live string or as on an absent key")
 	meta("C20", "exploration", seqTech+"Backup as a generated step; the copy is opened while the source stays open and compared with the reference map",
 		NontrivialRuleText["C20"], 6000, 200000,
 		[]string{"backups", "backups_mmap"})
